@@ -92,6 +92,7 @@ fn compile_data_expr(ir: &tir::Expression) -> Result<primitives::PlutusData, Err
         tir::Expression::Struct(x) => compile_struct(x),
         tir::Expression::Map(x) => x.try_as_data(),
         tir::Expression::Address(x) => Ok(x.as_data()),
+        tir::Expression::Hash(x) => Ok(x.as_data()),
         tir::Expression::List(x) => x.try_as_data(),
         _ => Err(Error::CoerceError(
             format!("{ir:?}"),
